@@ -112,3 +112,337 @@ theorem solveWith_recip (net : NetD F) (wf : net.WF) (sched) (total : St F)
     sched _ _ _ total (fullInv_initial net wf).linv hr h
 
 end NetD
+
+/-! ### losslessness (any pairing) through `join` and through the loop -/
+
+section lossless
+variable {F : Type} [Field F] [DecidableEq F]
+variable {R : Type*} [AddCommGroup R]
+
+/-- pairing of two wave assignments over a list of pins -/
+def pairL (φ : F → F → R) (l : List PinRef) (x y : PinRef → F) : R := (l.map fun p => φ (x p) (y p)).sum
+
+/-- the same pairing over a finite index type -/
+def ipφ (φ : F → F → R) {ι : Type*} [Fintype ι] (x y : ι → F) : R := ∑ i, φ (x i) (y i)
+
+theorem pairL_perm (φ : F → F → R) {l l' : List PinRef} (h : l.Perm l') (x y : PinRef → F) :
+    pairL φ l x y = pairL φ l' x y := by
+  unfold pairL; exact (h.map _).sum_eq
+
+theorem pairL_append (φ : F → F → R) (l₁ l₂ : List PinRef) (x y : PinRef → F) :
+    pairL φ (l₁ ++ l₂) x y = pairL φ l₁ x y + pairL φ l₂ x y := by
+  unfold pairL; simp
+
+theorem pairL_get (φ : F → F → R) (l : List PinRef) (x y : PinRef → F) :
+    pairL φ l x y = ∑ i : Fin l.length, φ (x l[i]) (y l[i]) := by
+  unfold pairL; rw [← Fin.sum_univ_fun_getElem]; rfl
+
+theorem pairL_map {α : Type*} (φ : F → F → R) (l : List α) (g : α → PinRef) (x y : PinRef → F) :
+    pairL φ (l.map g) x y = ∑ i : Fin l.length, φ (x (g l[i])) (y (g l[i])) := by
+  unfold pairL; rw [List.map_map, ← Fin.sum_univ_fun_getElem]; rfl
+
+/-- the output wave of a structure at pin `p` for input assignment `a` -/
+def St.out (s : St F) (a : PinRef → F) (p : PinRef) : F := rowSum s.pins s.sem a p
+
+/-- a structure is lossless with respect to the pairing `φ` -/
+def St.LosslessW (φ : F → F → R) (s : St F) : Prop :=
+  ∀ a a' : PinRef → F, pairL φ s.pins (s.out a') (s.out a) = pairL φ s.pins a' a
+
+/-- an assignment with prescribed values on the kept pins and on the link pins -/
+theorem exists_two (kept : List PinRef) (links : List (PinRef × PinRef)) (pick : PinRef × PinRef → PinRef)
+    (hnd : (kept ++ links.map pick).Nodup) (u : Fin kept.length → F) (g : Fin links.length → F) :
+    ∃ v : PinRef → F, (∀ i : Fin kept.length, v kept[i] = u i) ∧ ∀ j : Fin links.length, v (pick links[j]) = g j := by
+  have hk : kept.Nodup := (List.nodup_append.1 hnd).1
+  have hl : (links.map pick).Nodup := (List.nodup_append.1 hnd).2.1
+  have hdis : ∀ p ∈ kept, p ∉ links.map pick := fun p hp hq => (List.nodup_append.1 hnd).2.2 p hp p hq rfl
+  obtain ⟨v1, hv1, _⟩ := exists_extend kept hk u (fun _ => 0)
+  obtain ⟨v, hv, hrest⟩ := exists_extend (links.map pick) hl
+    (fun i => g ⟨i.1, by have := i.2; simpa using this⟩) v1
+  refine ⟨v, ?_, ?_⟩
+  · intro i
+    exact (hrest _ (hdis _ (List.getElem_mem i.2))).trans (hv1 i)
+  · intro j
+    have := hv ⟨j.1, by simp⟩
+    simpa [List.getElem_map] using this
+
+/-- the kept / connected partition of a lossless structure is a lossless partitioned matrix (first operand) -/
+theorem ablk_lossless (φ : F → F → R) (self : St F) (selfIn : List PinRef) (links : List (PinRef × PinRef))
+    (hs : self.pins.Nodup) (pA : self.pins.Perm (selfIn ++ links.map Prod.fst)) (hL : self.LosslessW φ) :
+    (St.ablk self selfIn links).LosslessWrt (ipφ φ) (ipφ φ) := by
+  intro u g u' g'
+  have hnd : (selfIn ++ links.map Prod.fst).Nodup := pA.nodup_iff.1 hs
+  obtain ⟨a, ha1, ha2⟩ := exists_two selfIn links Prod.fst hnd u g
+  obtain ⟨a', ha1', ha2'⟩ := exists_two selfIn links Prod.fst hnd u' g'
+  have hout : ∀ (b : PinRef → F) (ub : Fin selfIn.length → F) (gb : Fin links.length → F),
+      (∀ i : Fin selfIn.length, b selfIn[i] = ub i) → (∀ j : Fin links.length, b links[j].1 = gb j) →
+      (∀ i : Fin selfIn.length, self.out b selfIn[i] = ((St.ablk self selfIn links).S21 *ᵥ ub + (St.ablk self selfIn links).S22 *ᵥ gb) i) ∧
+      (∀ j : Fin links.length, self.out b links[j].1 = ((St.ablk self selfIn links).S11 *ᵥ ub + (St.ablk self selfIn links).S12 *ᵥ gb) j) := by
+    intro b ub gb h1 h2
+    have key : ∀ p, self.out b p = (∑ j : Fin selfIn.length, self.sem p selfIn[j] * ub j) + ∑ j : Fin links.length, self.sem p links[j].1 * gb j := by
+      intro p
+      unfold St.out
+      rw [rowSum_perm pA, rowSum_append, rowSum_get, rowSum_map]
+      congr 1
+      · exact Finset.sum_congr rfl fun j _ => by rw [h1 j]
+      · exact Finset.sum_congr rfl fun j _ => by rw [h2 j]
+    constructor
+    · intro i; rw [key]; simp [St.ablk, blk, Matrix.mulVec, dotProduct]
+    · intro j; rw [key]; simp [St.ablk, blk, Matrix.mulVec, dotProduct]
+  obtain ⟨o1, o2⟩ := hout a u g ha1 ha2
+  obtain ⟨o1', o2'⟩ := hout a' u' g' ha1' ha2'
+  have := hL a a'
+  rw [pairL_perm φ pA, pairL_perm φ pA, pairL_append, pairL_append, pairL_map, pairL_map, pairL_get, pairL_get] at this
+  unfold ipφ
+  convert this using 2
+  · exact Finset.sum_congr rfl fun i _ => by rw [o1' i, o1 i]
+  · exact Finset.sum_congr rfl fun j _ => by rw [o2' j, o2 j]
+  · exact Finset.sum_congr rfl fun i _ => by rw [ha1' i, ha1 i]
+  · exact Finset.sum_congr rfl fun j _ => by rw [ha2' j, ha2 j]
+
+/-- the same for the second operand (connected pins first, kept pins second) -/
+theorem bblk_lossless (φ : F → F → R) (st : St F) (links : List (PinRef × PinRef)) (stOut : List PinRef)
+    (ht : st.pins.Nodup) (pB : st.pins.Perm (links.map Prod.snd ++ stOut)) (hL : st.LosslessW φ) :
+    (St.bblk st links stOut).LosslessWrt (ipφ φ) (ipφ φ) := by
+  intro u g u' g'
+  -- here `u` lives on the connected pins (left ports of B) and `g` on the kept pins
+  have pB' : st.pins.Perm (stOut ++ links.map Prod.snd) := pB.trans List.perm_append_comm
+  have hnd : (stOut ++ links.map Prod.snd).Nodup := pB'.nodup_iff.1 ht
+  obtain ⟨a, ha1, ha2⟩ := exists_two stOut links Prod.snd hnd g u
+  obtain ⟨a', ha1', ha2'⟩ := exists_two stOut links Prod.snd hnd g' u'
+  have hout : ∀ (b : PinRef → F) (ub : Fin links.length → F) (gb : Fin stOut.length → F),
+      (∀ i : Fin stOut.length, b stOut[i] = gb i) → (∀ j : Fin links.length, b links[j].2 = ub j) →
+      (∀ j : Fin links.length, st.out b links[j].2 = ((St.bblk st links stOut).S21 *ᵥ ub + (St.bblk st links stOut).S22 *ᵥ gb) j) ∧
+      (∀ i : Fin stOut.length, st.out b stOut[i] = ((St.bblk st links stOut).S11 *ᵥ ub + (St.bblk st links stOut).S12 *ᵥ gb) i) := by
+    intro b ub gb h1 h2
+    have key : ∀ p, st.out b p = (∑ j : Fin links.length, st.sem p links[j].2 * ub j) + ∑ j : Fin stOut.length, st.sem p stOut[j] * gb j := by
+      intro p
+      unfold St.out
+      rw [rowSum_perm pB, rowSum_append, rowSum_map, rowSum_get]
+      congr 1
+      · exact Finset.sum_congr rfl fun j _ => by rw [h2 j]
+      · exact Finset.sum_congr rfl fun j _ => by rw [h1 j]
+    constructor
+    · intro j; rw [key]; simp [St.bblk, blk, Matrix.mulVec, dotProduct]
+    · intro i; rw [key]; simp [St.bblk, blk, Matrix.mulVec, dotProduct]
+  obtain ⟨o1, o2⟩ := hout a u g ha1 ha2
+  obtain ⟨o1', o2'⟩ := hout a' u' g' ha1' ha2'
+  have := hL a a'
+  rw [pairL_perm φ pB, pairL_perm φ pB, pairL_append, pairL_append, pairL_map, pairL_map, pairL_get, pairL_get] at this
+  unfold ipφ
+  convert this using 2
+  · exact Finset.sum_congr rfl fun j _ => by rw [o1' j, o1 j]
+  · exact Finset.sum_congr rfl fun i _ => by rw [o2' i, o2 i]
+  · exact Finset.sum_congr rfl fun j _ => by rw [ha2' j, ha2 j]
+  · exact Finset.sum_congr rfl fun i _ => by rw [ha1' i, ha1 i]
+
+/-- **`join` preserves losslessness** (any pairing) -/
+theorem St.join_lossless (φ : F → F → R) (self st c : St F) (newId : Nat)
+    (hs : self.pins.Nodup) (ht : st.pins.Nodup) (hd : ∀ p, p ∈ self.pins → p ∈ st.pins → False)
+    (ls : self.LosslessW φ) (lt : st.LosslessW φ) (h : St.join self st newId = .ok c) : c.LosslessW φ := by
+  obtain ⟨links, selfIn, stOut, jf⟩ := St.join_facts self st c newId hs ht hd h
+  have lA := ablk_lossless φ self selfIn links hs jf.pA ls
+  have lB := bblk_lossless φ st links stOut ht jf.pB lt
+  have lC := star_lossless _ _ jf.hu _ _ _ lA lB
+  intro a a'
+  have hout : ∀ b : PinRef → F,
+      (∀ i : Fin selfIn.length, c.out b selfIn[i] =
+        (((St.ablk self selfIn links).add (St.bblk st links stOut)).S21 *ᵥ (fun i => b selfIn[i]) +
+         ((St.ablk self selfIn links).add (St.bblk st links stOut)).S22 *ᵥ (fun j => b stOut[j])) i) ∧
+      (∀ j : Fin stOut.length, c.out b stOut[j] =
+        (((St.ablk self selfIn links).add (St.bblk st links stOut)).S11 *ᵥ (fun i => b selfIn[i]) +
+         ((St.ablk self selfIn links).add (St.bblk st links stOut)).S12 *ᵥ (fun j => b stOut[j])) j) := by
+    intro b
+    have key : ∀ p, c.out b p = (∑ j : Fin selfIn.length, c.sem p selfIn[j] * b selfIn[j]) + ∑ j : Fin stOut.length, c.sem p stOut[j] * b stOut[j] := by
+      intro p
+      unfold St.out
+      rw [jf.hpins, rowSum_append, rowSum_get, rowSum_get]
+    constructor
+    · intro i
+      rw [key]
+      simp only [Matrix.add_apply, Pi.add_apply, Matrix.mulVec, dotProduct]
+      congr 1
+      · exact Finset.sum_congr rfl fun j _ => by
+          rw [jf.e21 i j]
+      · exact Finset.sum_congr rfl fun j _ => by
+          rw [jf.e22 i j]
+    · intro j
+      rw [key]
+      simp only [Matrix.add_apply, Pi.add_apply, Matrix.mulVec, dotProduct]
+      congr 1
+      · exact Finset.sum_congr rfl fun i _ => by
+          rw [jf.e11 j i]
+      · exact Finset.sum_congr rfl fun i _ => by
+          rw [jf.e12 j i]
+  obtain ⟨o1, o2⟩ := hout a
+  obtain ⟨o1', o2'⟩ := hout a'
+  have := lC (fun i => a selfIn[i]) (fun j => a stOut[j]) (fun i => a' selfIn[i]) (fun j => a' stOut[j])
+  unfold ipφ at this
+  rw [jf.hpins, pairL_append, pairL_append, pairL_get, pairL_get, pairL_get, pairL_get]
+  convert this using 2
+  · exact Finset.sum_congr rfl fun i _ => by rw [o1' i, o1 i]
+  · exact Finset.sum_congr rfl fun j _ => by rw [o2' j, o2 j]
+
+end lossless
+
+namespace NetD
+variable {F : Type} [Field F] [DecidableEq F] {R : Type*} [AddCommGroup R]
+open Solve
+
+/-- **network-level losslessness, any schedule, any pairing**: if every component is lossless, so is what `solve` returns -/
+theorem solveWith_lossless (φ : F → F → R) (net : NetD F) (wf : net.WF) (sched) (total : St F)
+    (h : net.solveWith sched = .ok total) (hl : ∀ s ∈ net.initial, s.LosslessW φ) : total.LosslessW φ :=
+  loopWith_preserves net.Sol (St.LosslessW φ)
+    (fun s t c newId hs ht hd ls lt hj => St.join_lossless φ s t c newId hs ht hd ls lt hj)
+    sched _ _ _ total (fullInv_initial net wf).linv hl h
+
+end NetD
+
+section passive
+variable {F : Type} [Field F] [DecidableEq F]
+variable {R : Type*} [AddCommGroup R] [PartialOrder R] [IsOrderedAddMonoid R]
+
+/-- total power of a wave assignment over a list of pins -/
+def sumL (w : F → R) (l : List PinRef) (x : PinRef → F) : R := (l.map fun p => w (x p)).sum
+/-- the same over a finite index type -/
+def pwφ (w : F → R) {ι : Type*} [Fintype ι] (x : ι → F) : R := ∑ i, w (x i)
+
+theorem sumL_perm (w : F → R) {l l' : List PinRef} (h : l.Perm l') (x : PinRef → F) : sumL w l x = sumL w l' x := by
+  unfold sumL; exact (h.map _).sum_eq
+theorem sumL_append (w : F → R) (l₁ l₂ : List PinRef) (x : PinRef → F) : sumL w (l₁ ++ l₂) x = sumL w l₁ x + sumL w l₂ x := by
+  unfold sumL; simp
+theorem sumL_get (w : F → R) (l : List PinRef) (x : PinRef → F) : sumL w l x = ∑ i : Fin l.length, w (x l[i]) := by
+  unfold sumL; rw [← Fin.sum_univ_fun_getElem]; rfl
+theorem sumL_map {α : Type*} (w : F → R) (l : List α) (g : α → PinRef) (x : PinRef → F) :
+    sumL w (l.map g) x = ∑ i : Fin l.length, w (x (g l[i])) := by
+  unfold sumL; rw [List.map_map, ← Fin.sum_univ_fun_getElem]; rfl
+
+/-- a structure is passive with respect to the power functional `w` (per-pin power `w (amplitude)`) -/
+def St.PassiveW (w : F → R) (s : St F) : Prop :=
+  ∀ a : PinRef → F, sumL w s.pins (s.out a) ≤ sumL w s.pins a
+
+/-- the kept / connected partition of a passive structure is a passive partitioned matrix (first operand) -/
+theorem ablk_passive (w : F → R) (self : St F) (selfIn : List PinRef) (links : List (PinRef × PinRef))
+    (hs : self.pins.Nodup) (pA : self.pins.Perm (selfIn ++ links.map Prod.fst)) (hL : self.PassiveW w) :
+    (St.ablk self selfIn links).PassiveWrt (pwφ w) (pwφ w) := by
+  intro u g
+  have hnd : (selfIn ++ links.map Prod.fst).Nodup := pA.nodup_iff.1 hs
+  obtain ⟨a, ha1, ha2⟩ := exists_two selfIn links Prod.fst hnd u g
+  have hout : ∀ (b : PinRef → F) (ub : Fin selfIn.length → F) (gb : Fin links.length → F),
+      (∀ i : Fin selfIn.length, b selfIn[i] = ub i) → (∀ j : Fin links.length, b links[j].1 = gb j) →
+      (∀ i : Fin selfIn.length, self.out b selfIn[i] = ((St.ablk self selfIn links).S21 *ᵥ ub + (St.ablk self selfIn links).S22 *ᵥ gb) i) ∧
+      (∀ j : Fin links.length, self.out b links[j].1 = ((St.ablk self selfIn links).S11 *ᵥ ub + (St.ablk self selfIn links).S12 *ᵥ gb) j) := by
+    intro b ub gb h1 h2
+    have key : ∀ p, self.out b p = (∑ j : Fin selfIn.length, self.sem p selfIn[j] * ub j) + ∑ j : Fin links.length, self.sem p links[j].1 * gb j := by
+      intro p
+      unfold St.out
+      rw [rowSum_perm pA, rowSum_append, rowSum_get, rowSum_map]
+      congr 1
+      · exact Finset.sum_congr rfl fun j _ => by rw [h1 j]
+      · exact Finset.sum_congr rfl fun j _ => by rw [h2 j]
+    constructor
+    · intro i; rw [key]; simp [St.ablk, blk, Matrix.mulVec, dotProduct]
+    · intro j; rw [key]; simp [St.ablk, blk, Matrix.mulVec, dotProduct]
+  obtain ⟨o1, o2⟩ := hout a u g ha1 ha2
+  have := hL a
+  rw [sumL_perm w pA, sumL_perm w pA, sumL_append, sumL_append, sumL_map, sumL_map, sumL_get, sumL_get] at this
+  unfold pwφ
+  convert this using 2
+  · exact Finset.sum_congr rfl fun i _ => by rw [o1 i]
+  · exact Finset.sum_congr rfl fun j _ => by rw [o2 j]
+  · exact Finset.sum_congr rfl fun i _ => by rw [ha1 i]
+  · exact Finset.sum_congr rfl fun j _ => by rw [ha2 j]
+
+/-- the same for the second operand (connected pins first, kept pins second) -/
+theorem bblk_passive (w : F → R) (st : St F) (links : List (PinRef × PinRef)) (stOut : List PinRef)
+    (ht : st.pins.Nodup) (pB : st.pins.Perm (links.map Prod.snd ++ stOut)) (hL : st.PassiveW w) :
+    (St.bblk st links stOut).PassiveWrt (pwφ w) (pwφ w) := by
+  intro u g
+  -- here `u` lives on the connected pins (left ports of B) and `g` on the kept pins
+  have pB' : st.pins.Perm (stOut ++ links.map Prod.snd) := pB.trans List.perm_append_comm
+  have hnd : (stOut ++ links.map Prod.snd).Nodup := pB'.nodup_iff.1 ht
+  obtain ⟨a, ha1, ha2⟩ := exists_two stOut links Prod.snd hnd g u
+  have hout : ∀ (b : PinRef → F) (ub : Fin links.length → F) (gb : Fin stOut.length → F),
+      (∀ i : Fin stOut.length, b stOut[i] = gb i) → (∀ j : Fin links.length, b links[j].2 = ub j) →
+      (∀ j : Fin links.length, st.out b links[j].2 = ((St.bblk st links stOut).S21 *ᵥ ub + (St.bblk st links stOut).S22 *ᵥ gb) j) ∧
+      (∀ i : Fin stOut.length, st.out b stOut[i] = ((St.bblk st links stOut).S11 *ᵥ ub + (St.bblk st links stOut).S12 *ᵥ gb) i) := by
+    intro b ub gb h1 h2
+    have key : ∀ p, st.out b p = (∑ j : Fin links.length, st.sem p links[j].2 * ub j) + ∑ j : Fin stOut.length, st.sem p stOut[j] * gb j := by
+      intro p
+      unfold St.out
+      rw [rowSum_perm pB, rowSum_append, rowSum_map, rowSum_get]
+      congr 1
+      · exact Finset.sum_congr rfl fun j _ => by rw [h2 j]
+      · exact Finset.sum_congr rfl fun j _ => by rw [h1 j]
+    constructor
+    · intro j; rw [key]; simp [St.bblk, blk, Matrix.mulVec, dotProduct]
+    · intro i; rw [key]; simp [St.bblk, blk, Matrix.mulVec, dotProduct]
+  obtain ⟨o1, o2⟩ := hout a u g ha1 ha2
+  have := hL a
+  rw [sumL_perm w pB, sumL_perm w pB, sumL_append, sumL_append, sumL_map, sumL_map, sumL_get, sumL_get] at this
+  unfold pwφ
+  convert this using 2
+  · exact Finset.sum_congr rfl fun j _ => by rw [o1 j]
+  · exact Finset.sum_congr rfl fun i _ => by rw [o2 i]
+  · exact Finset.sum_congr rfl fun j _ => by rw [ha2 j]
+  · exact Finset.sum_congr rfl fun i _ => by rw [ha1 i]
+
+/-- **`join` preserves passivity** (any power functional) -/
+theorem St.join_passive (w : F → R) (self st c : St F) (newId : Nat)
+    (hs : self.pins.Nodup) (ht : st.pins.Nodup) (hd : ∀ p, p ∈ self.pins → p ∈ st.pins → False)
+    (ls : self.PassiveW w) (lt : st.PassiveW w) (h : St.join self st newId = .ok c) : c.PassiveW w := by
+  obtain ⟨links, selfIn, stOut, jf⟩ := St.join_facts self st c newId hs ht hd h
+  have lA := ablk_passive w self selfIn links hs jf.pA ls
+  have lB := bblk_passive w st links stOut ht jf.pB lt
+  have lC := star_passive _ _ jf.hu _ _ _ lA lB
+  intro a
+  have hout : ∀ b : PinRef → F,
+      (∀ i : Fin selfIn.length, c.out b selfIn[i] =
+        (((St.ablk self selfIn links).add (St.bblk st links stOut)).S21 *ᵥ (fun i => b selfIn[i]) +
+         ((St.ablk self selfIn links).add (St.bblk st links stOut)).S22 *ᵥ (fun j => b stOut[j])) i) ∧
+      (∀ j : Fin stOut.length, c.out b stOut[j] =
+        (((St.ablk self selfIn links).add (St.bblk st links stOut)).S11 *ᵥ (fun i => b selfIn[i]) +
+         ((St.ablk self selfIn links).add (St.bblk st links stOut)).S12 *ᵥ (fun j => b stOut[j])) j) := by
+    intro b
+    have key : ∀ p, c.out b p = (∑ j : Fin selfIn.length, c.sem p selfIn[j] * b selfIn[j]) + ∑ j : Fin stOut.length, c.sem p stOut[j] * b stOut[j] := by
+      intro p
+      unfold St.out
+      rw [jf.hpins, rowSum_append, rowSum_get, rowSum_get]
+    constructor
+    · intro i
+      rw [key]
+      simp only [Matrix.add_apply, Pi.add_apply, Matrix.mulVec, dotProduct]
+      congr 1
+      · exact Finset.sum_congr rfl fun j _ => by
+          rw [jf.e21 i j]
+      · exact Finset.sum_congr rfl fun j _ => by
+          rw [jf.e22 i j]
+    · intro j
+      rw [key]
+      simp only [Matrix.add_apply, Pi.add_apply, Matrix.mulVec, dotProduct]
+      congr 1
+      · exact Finset.sum_congr rfl fun i _ => by
+          rw [jf.e11 j i]
+      · exact Finset.sum_congr rfl fun i _ => by
+          rw [jf.e12 j i]
+  obtain ⟨o1, o2⟩ := hout a
+  have := lC (fun i => a selfIn[i]) (fun j => a stOut[j])
+  unfold pwφ at this
+  rw [jf.hpins, sumL_append, sumL_append, sumL_get, sumL_get, sumL_get, sumL_get]
+  convert this using 2
+  · exact Finset.sum_congr rfl fun i _ => by rw [o1 i]
+  · exact Finset.sum_congr rfl fun j _ => by rw [o2 j]
+
+end passive
+
+namespace NetD
+variable {F : Type} [Field F] [DecidableEq F] {R : Type*} [AddCommGroup R] [PartialOrder R] [IsOrderedAddMonoid R]
+open Solve
+
+/-- **network-level passivity, any schedule, any power functional**: a circuit of passive components never shows gain -/
+theorem solveWith_passive (w : F → R) (net : NetD F) (wf : net.WF) (sched) (total : St F)
+    (h : net.solveWith sched = .ok total) (hl : ∀ s ∈ net.initial, s.PassiveW w) : total.PassiveW w :=
+  loopWith_preserves net.Sol (St.PassiveW w)
+    (fun s t c newId hs ht hd ls lt hj => St.join_passive w s t c newId hs ht hd ls lt hj)
+    sched _ _ _ total (fullInv_initial net wf).linv hl h
+
+end NetD
